@@ -1,8 +1,197 @@
 /-
-C11 — property theorems (stub; see DESIGN.md §6).
+C11 — Partial-channel inference; channel joins round-trip.
+
+Model: `ArtModel/Fusion.lean` — `choiceSkip` / `stepPredSkip` / `predictSkip` (a skipped
+channel contributes `1·gamma_k`, `predict` normalises negative indices once),
+`predictRegression` (as written, incl. the double normalisation and the list of centres
+indexed by channel number), `joinRow` / `splitRow`, `prepareRow` / `restoreRow` (as written).
+
+Proved for every ordered field, every channel layout, every trained weight list `W`, every
+query and every filler:
+  * `skip_independent`, `skip_is_argmax_of_rest`, `skip_index_normalised`;
+  * `regression_is_target_centre` (one target channel — the documented use);
+  * `split_join`, `join_split`.
+Two clauses are false of the code as written and therefore of the faithful model:
+  * several target channels: `centers[k]` is read with the channel number instead of the
+    position (finding C11-b): `regression_multi_counterexample`, `regression_multi_as_written`,
+    `regression_multi_partial` (targets sitting at their own positions, e.g. `[0,1]`);
+  * `restore_data` with a skipped channel in front of a kept one indexes the list of kept
+    channels with the channel number (finding C11-a): `restore_prepare_counterexample`,
+    `restore_prepare_partial` (skipped channels form a suffix, e.g. `[-1]`).
+The inverse law of a single module's `prepare_data` / `restore_data` is C18's; here it is
+the hypothesis `hinv`.
 -/
-import ArtModel.Basic
+import ArtProofs.Fusion
+import ArtProofs.Kernels
 
 namespace Art.C11
+open Art Art.Fusion
+
+set_option linter.unusedSectionVars false
+
+section Core
+variable {α : Type} [Field α] [LinearOrder α] [IsStrictOrderedRing α]
+
+/-- **Only the supplied channels matter.**  Two queries that agree on every channel that is
+not skipped are given the same category — whatever stands in the skipped columns. -/
+theorem skip_independent (chans : List (Chan α)) (ks : List Int) (W : List (List α)) (x x' : List α)
+    (h : ∀ k, skipSet chans.length ks k = false → slice (widths chans) k x = slice (widths chans) k x') :
+    predictSkip chans ks W [x] = predictSkip chans ks W [x'] := by
+  simp only [predictSkip, List.map_cons, List.map_nil]
+  rw [stepPredSkip_indep chans _ W x x' h]
+
+/-- with channels skipped the fused activation is the remaining channels' gamma-weighted sum
+plus the constant `Σ_{k skipped} gamma_k` (the same for every category) -/
+theorem skip_adds_constant (chans : List (Chan α)) (skip : Nat → Bool) (W : List (List α)) (x w : List α) :
+    choiceSkip chans skip W x w = (restChoice chans skip W x w).map (· + skipConst chans skip) :=
+  choiceSkip_eq_rest_add chans skip W x w
+
+/-- adding one constant to every activation changes neither `np.argmax` nor its tie rule -/
+theorem argmax_add_const (c : α) (T : List (Option α)) : argmaxNp (T.map (Option.map (· + c))) = argmaxNp T :=
+  argmaxNp_map_add c T
+
+/-- **The predicted category is the (first) arg-max of the gamma-weighted activations of the
+remaining channels.** -/
+theorem skip_is_argmax_of_rest (chans : List (Chan α)) (ks : List Int) (W : List (List α)) (x : List α) :
+    predictSkip chans ks W [x] =
+      [argmaxNp (W.map (restChoice chans (skipSet chans.length ks) W x))] := by
+  simp only [predictSkip, List.map_cons, List.map_nil]
+  rw [stepPredSkip_eq_rest]
+
+/-- **Negative indices** are normalised: `-(m+1)` denotes channel `n-(m+1)`, and predicting
+with either spelling is the same function. -/
+theorem skip_index_normalised (chans : List (Chan α)) (m : Nat) (h : m < chans.length) (ks : List Int)
+    (W : List (List α)) (xs : List (List α)) :
+    normIdx chans.length (-((m : Int) + 1)) = ((chans.length - (m + 1) : Nat) : Int) ∧
+    predictSkip chans (-((m : Int) + 1) :: ks) W xs =
+      predictSkip chans (((chans.length - (m + 1) : Nat) : Int) :: ks) W xs := by
+  refine ⟨normIdx_neg _ m h, ?_⟩
+  unfold predictSkip
+  rw [skipSet_neg chans.length m h ks]
+
+/-- **Regression, one target channel**: the value returned for a row is exactly the
+target-channel centre of the category predicted with that channel skipped. -/
+theorem regression_is_target_centre (chans : List (Chan α)) (centre : Nat → List α → List α) (t : Int)
+    (W : List (List α)) (x : List α) (ht : 0 ≤ normIdx chans.length t) (c : Nat)
+    (hc : predictSkip chans [t] W [x] = [some c]) :
+    ∃ w, W[c]? = some w ∧
+      predictRegression chans centre [t] W x =
+        some [centre (normIdx chans.length t).toNat (slice (widths chans) (normIdx chans.length t).toNat w)] := by
+  simp only [predictSkip, List.map_cons, List.map_nil, List.cons.injEq, and_true] at hc
+  have hlt : c < W.length := by
+    have := argmaxNp_lt_length hc
+    simpa using this
+  refine ⟨W[c], List.getElem?_eq_getElem hlt, ?_⟩
+  rw [predictRegression_single chans centre t W x ht c hc, List.getElem?_eq_getElem hlt]
+  rfl
+
+/-- **Regression, several targets, as written**: the entry for target `k` is taken from
+position `k` of the list of centres, i.e. it is the centre of channel `tn[k]`
+(`tn` = the normalised targets); `none` = the `IndexError` when there is no such position. -/
+theorem regression_multi_as_written (chans : List (Chan α)) (centre : Nat → List α → List α)
+    (targets : List Int) (W : List (List α)) (x : List α) (hl : targets.length ≠ 1)
+    (hnn : ∀ t ∈ targets, 0 ≤ normIdx chans.length t) (c : Nat)
+    (hc : predictSkip chans targets W [x] = [some c]) :
+    predictRegression chans centre targets W x =
+      allSome ((targets.map (normIdx chans.length)).map (fun k =>
+        (((targets.map (normIdx chans.length))[k.toNat]?).bind (fun k' =>
+          (W[c]?).map (fun w => centre k'.toNat (slice (widths chans) k'.toNat w)))))) := by
+  simp only [predictSkip, List.map_cons, List.map_nil, List.cons.injEq, and_true] at hc
+  exact predictRegression_multi chans centre targets W x hl hnn c hc
+
+/-- **Regression, several targets** — partial: when every target sits at its own position
+in the list (`[0,1]`, `[0,1,2]`, …) the result is the list of target-channel centres of the
+predicted category.  (Full statement — any list of targets — is false of the code, see the
+counterexample.) -/
+theorem regression_multi_partial (chans : List (Chan α)) (centre : Nat → List α → List α)
+    (targets : List Int) (W : List (List α)) (x : List α) (hl : targets.length ≠ 1)
+    (hnn : ∀ t ∈ targets, 0 ≤ normIdx chans.length t)
+    (hpos : ∀ k ∈ targets.map (normIdx chans.length),
+      (targets.map (normIdx chans.length))[k.toNat]? = some k)
+    (c : Nat) (hc : predictSkip chans targets W [x] = [some c]) :
+    predictRegression chans centre targets W x =
+      (W[c]?).map (fun w => (targets.map (normIdx chans.length)).map
+        (fun k => centre k.toNat (slice (widths chans) k.toNat w))) := by
+  simp only [predictSkip, List.map_cons, List.map_nil, List.cons.injEq, and_true] at hc
+  exact predictRegression_multi_pos chans centre targets W x hl hnn hpos c hc
+
+end Core
+
+section Join
+variable {β : Type}
+
+/-- **split ∘ join = id** on the supplied channels: rows of the kept channels' widths come
+back unchanged (and the joined row has the full width). -/
+theorem split_join (filler : β) (skip : Nat → Bool) (ws : List Nat) (data : List (List β))
+    (h : Fit (keptWidths skip 0 ws) data) :
+    ∃ v, joinRow ws skip filler data = some v ∧ splitRow ws skip v = data ∧ v.length = ws.sum :=
+  split_join_from filler skip 0 ws data h
+
+/-- **join ∘ split** returns the row with the skipped blocks overwritten by the filler; on every
+supplied channel it agrees with the row. -/
+theorem join_split (filler : β) (skip : Nat → Bool) (ws : List Nat) (v : List β) (hv : ws.sum ≤ v.length) :
+    joinRow ws skip filler (splitRow ws skip v) = some (maskFrom filler skip 0 ws v) ∧
+    ∀ j, skip j = false → slice ws j (maskFrom filler skip 0 ws v) = slice ws j v :=
+  ⟨join_split_from filler skip 0 ws v,
+   fun j hj => slice_maskFrom filler skip 0 ws v hv j (by simpa using hj)⟩
+
+/-- **restore ∘ prepare** — partial: when the skipped channels are the last ones (`m` kept
+channels in front), every module's `restore_data` inverts its `prepare_data` (`hinv`, C18) and
+prepared rows have the channel width, the supplied channels come back.  (Full statement —
+any skipped subset — is false of the code, see the counterexample.) -/
+theorem restore_prepare_partial (prep rest : Nat → List β → List β) (ws : List Nat) (skip : Nat → Bool)
+    (filler : β) (data : List (List β)) (m : Nat) (hm : m ≤ ws.length) (hd : data.length = ws.length)
+    (hskip : ∀ i, i < ws.length → skip i = decide (m ≤ i))
+    (hwid : ∀ i, i < m → (prep i (data.getD i [])).length = ws.getD i 0)
+    (hinv : ∀ i, i < m → rest i (prep i (data.getD i [])) = data.getD i []) :
+    ∃ v, prepareRow prep ws skip filler data = some v ∧
+      restoreRow rest ws skip v = some ((List.range m).map (fun i => data.getD i [])) :=
+  restore_prepare_suffix prep rest ws skip filler data m hm hd hskip hwid hinv
+
+end Join
+
+/-! ### Counterexamples (ℚ, FuzzyART channels alpha = 1/4, beta = 1) and non-vacuity -/
+
+private def ch3 : List (Chan Rat) :=
+  [⟨fuzzyKernel (1/4) 1 1, 2, 1/2⟩, ⟨fuzzyKernel (1/4) 1 1, 2, 1/4⟩, ⟨fuzzyKernel (1/4) 1 1, 2, 1/4⟩]
+private def W3 : List (List Rat) :=
+  [[0, 1, 0, 1, 0, 1], [1, 0, 1, 0, 1, 0], [1/4, 3/4, 1/2, 1/2, 3/4, 1/4]]
+private def cen : Nat → List Rat → List Rat := fun _ => fuzzyCentre
+private def q3 : List Rat := [1/4, 3/4, 1/2, 1/2, 3/4, 1/4]
+
+/-- **Counterexample (finding C11-b).**  Three channels, query = the third category.  Targets
+`[1, 0]`: the code returns channel 0's centre `[1/4]` first and channel 1's centre `[1/2]`
+second (it should be the other way round); targets `[1, 2]`: `IndexError`. -/
+theorem regression_multi_counterexample :
+    predictRegression ch3 cen [1, 0] W3 q3 = some [[1/4], [1/2]] ∧
+    (channelCentres ch3 cen W3 1)[2]? = some [1/2] ∧ (channelCentres ch3 cen W3 0)[2]? = some [1/4] ∧
+    predictRegression ch3 cen [1, 2] W3 q3 = none := by
+  decide +kernel
+
+private def ccR (v : List Rat) : List Rat := v ++ vcompl v
+
+/-- **Counterexample (finding C11-a).**  Two Fuzzy channels, channel 0 skipped: `prepare_data`
+works, `restore_data` on its result raises `IndexError` (`none`) instead of returning `[[1/2]]`. -/
+theorem restore_prepare_counterexample :
+    prepareRow (fun _ => ccR) [2, 2] (skipSet 2 [0]) (1/2 : Rat) [[], [1/2]] = some [1/2, 1/2, 1/2, 1/2] ∧
+    restoreRow (fun _ => fuzzyCentre) [2, 2] (skipSet 2 [0]) ([1/2, 1/2, 1/2, 1/2] : List Rat) = none ∧
+    fuzzyCentre (ccR [1/2]) = [1/2] := by
+  decide +kernel
+
+-- skipping the last channel with index -1 or 2, any filler: same category, the third one
+example : predictSkip ch3 [-1] W3 [[1/4, 3/4, 1/2, 1/2, 1/2, 1/2]] = [some 2] := by decide +kernel
+example : predictSkip ch3 [2] W3 [[1/4, 3/4, 1/2, 1/2, 0, 1]] = [some 2] := by decide +kernel
+-- regression on the last channel (the default `target_channels=[-1]`)
+example : predictRegression ch3 cen [-1] W3 q3 = some [[3/4]] := by decide +kernel
+-- two targets at their own positions are right
+example : predictRegression ch3 cen [0, 1] W3 q3 = some [[1/4], [1/2]] := by decide +kernel
+-- join / split with the middle channel skipped
+example : joinRow [2, 2, 2] (skipSet 3 [1]) (1/2 : Rat) [[0, 1], [1/4, 3/4]] = some [0, 1, 1/2, 1/2, 1/4, 3/4] := by
+  decide +kernel
+example : splitRow [2, 2, 2] (skipSet 3 [-2]) ([0, 1, 1/2, 1/2, 1/4, 3/4] : List Rat) = [[0, 1], [1/4, 3/4]] := by
+  decide +kernel
+-- prepare / restore with the last channel skipped
+example : (prepareRow (fun _ => ccR) [2, 2] (skipSet 2 [-1]) (1/2 : Rat) [[1/4], []]).bind
+    (restoreRow (fun _ => fuzzyCentre) [2, 2] (skipSet 2 [-1])) = some [[1/4]] := by decide +kernel
 
 end Art.C11
